@@ -74,7 +74,9 @@ func Prim(dst WeightedBuilder, g graph.WeightedUndirected) float64 {
 				if !ok {
 					panic("prim: unexpected invalid weight")
 				}
-				if w < key {
+				// An edge of infinite weight still joins n to
+				// the tree when n has no finite connection.
+				if w < key || (w == key && math.IsInf(w, 1)) {
 					q.update(n, u, w)
 				}
 			}
@@ -93,7 +95,13 @@ type primQueue struct {
 }
 
 func (q *primQueue) Less(i, j int) bool {
-	return q.nodes[i].Weight() < q.nodes[j].Weight()
+	wi, wj := q.nodes[i].Weight(), q.nodes[j].Weight()
+	if wi == wj {
+		// Take a node that can be joined to the current tree, by
+		// an edge of infinite weight, before starting a new tree.
+		return q.nodes[i].T != nil && q.nodes[j].T == nil
+	}
+	return wi < wj
 }
 
 func (q *primQueue) Swap(i, j int) {
